@@ -226,7 +226,85 @@ fn exh_case(idx: u64, ctx: &mut Ctx) -> CaseResult {
     }
 }
 
+/// Bodies nested right at the CBOR parser's recursion limit, behind the registered tag, a wrong
+/// tag, no tag, or a *non-tag* head whose argument equals the tag number (array / map / string /
+/// integer head): only the registered tag makes a tagged form.
+fn limit_case(g: &mut Gen, ctx: &mut Ctx) -> CaseResult {
+    let t = &types()[g.below(types().len())];
+    let d = 246 + g.below(14);
+    let body_at = |d: usize| -> Vec<u8> {
+        let mut hdr = vec![0xa1, 0x18, 0x63];
+        hdr.extend(std::iter::repeat(0x81u8).take(d));
+        hdr.push(0x00);
+        let mut b: Vec<u8> = match t.kind {
+            Kind::Mac => vec![0x85, 0x40],
+            Kind::Encrypt0 => vec![0x83, 0x40],
+            _ => vec![0x84, 0x40],
+        };
+        b.extend_from_slice(&hdr);
+        match t.kind {
+            Kind::Sign1 | Kind::Mac0 => b.extend_from_slice(&[0xf6, 0x40]),
+            Kind::Encrypt0 => b.push(0xf6),
+            Kind::Sign => b.extend_from_slice(&[0xf6, 0x81, 0x83, 0x40, 0xa0, 0x40]),
+            Kind::Mac => b.extend_from_slice(&[0xf6, 0x40, 0x81, 0x83, 0x40, 0xa0, 0xf6]),
+            _ => b.extend_from_slice(&[0xf6, 0x81, 0x83, 0x40, 0xa0, 0xf6]),
+        }
+        b
+    };
+    let body = body_at(d);
+    let ok_untagged = (t.untagged)(&body).is_ok();
+    let with_head = |major: u8, n: u64| -> Vec<u8> {
+        let mut x = vec![];
+        head(&mut x, major, n);
+        x.extend_from_slice(&body);
+        x
+    };
+    ctx.classf(format!("limit:{}:{}", d, if ok_untagged { "accepted-untagged" } else { "rejected-untagged" }));
+    ctx.nontrivial(hash_bytes(&[t.kind.name().as_bytes(), &[d as u8]].concat()));
+    ctx.sample_with(|| format!("{} body nested {} deep ({} untagged)", t.kind.name(), d, if ok_untagged { "accepted" } else { "rejected" }));
+    // no tag, a wrong tag, non-tag heads carrying the tag number
+    ensure!((t.tagged)(&body).is_err(), "from_tagged_slice accepted an untagged body nested {} deep", d);
+    for (what, x) in [
+        ("a wrong tag", with_head(6, if t.tag == 18 { 17 } else { 18 })),
+        ("an array head whose length is the tag number", with_head(4, t.tag)),
+        ("a map head whose size is the tag number", with_head(5, t.tag)),
+        ("a byte-string head whose length is the tag number", with_head(2, t.tag)),
+        ("the tag number as an integer", with_head(0, t.tag)),
+    ] {
+        if let Ok(v) = (t.tagged)(&x) {
+            fail!("from_tagged_slice accepted {} followed by a {} body nested {} deep: {} -> {}", what, t.kind.name(), d, hex_trunc(&x, 12), short(&v, 80));
+        }
+        ensure!((t.untagged)(&x).is_err(), "from_slice accepted {} followed by a body nested {} deep", what, d);
+    }
+    // the registered tag (minimal and wide head)
+    for w in [min_width(t.tag), 2, 8] {
+        let x = match tag_bytes(t.tag, w, &body) {
+            Some(x) => x,
+            None => continue,
+        };
+        match ((t.tagged)(&x), ok_untagged) {
+            (Ok(_), true) | (Err(_), false) => {}
+            (Ok(_), false) => fail!("from_tagged_slice accepted the tag applied to a body (nested {} deep) that from_slice rejects", d),
+            (Err(e), true) => {
+                // the tag itself takes one level of the parser's recursion budget: a body nested to the
+                // very limit is accepted untagged and refused tagged
+                let msg = format!("from_tagged_slice rejects ({:?}) the registered tag applied once to a body nested {} deep that from_slice accepts", e, d);
+                // (input shape of the known finding: tag + array + header map + 254 arrays = 257 levels)
+                if d == 254 {
+                    ctx.known("tagged-decode:body-nested-to-the-parser-recursion-limit", "tagged form of a body nested to the CBOR parser's recursion limit is refused").map_err(|_| msg)?;
+                } else {
+                    return Err(msg);
+                }
+            }
+        }
+    }
+    Ok(())
+}
+
 fn case(g: &mut Gen, ctx: &mut Ctx) -> CaseResult {
+    if g.ratio(1, 20) {
+        return limit_case(g, ctx);
+    }
     let t = &types()[g.below(types().len())];
     let ntags = g.weighted(&[2, 6, 2, 1]);
     let mut tags = vec![];
